@@ -567,11 +567,23 @@ func TestC09Concurrent(t *testing.T) {
 		if err != nil {
 			t.Fatal(err)
 		}
-		bus := ebu.New(ebu.WithStore(st.Store))
+		busOpts := []ebu.Option{ebu.WithStore(st.Store)}
+		if _, ok := st.Store.(ebu.SubscriptionStore); !ok && st.Sub != nil {
+			busOpts = append(busOpts, ebu.WithSubscriptionStore(st.Sub))
+		}
+		bus := ebu.New(busOpts...)
 		P := 2 + rng.IntN(15)
 		E := 2 + rng.IntN(12)
 		if kind != "memory" && kind != "memory-paged" {
 			E = 1 + rng.IntN(4)
+		}
+		withSub := (i/len(kinds))%2 == 1 && st.Sub != nil
+		if withSub {
+			// a resumable subscription next to the publishers: its handler saves its position in the
+			// same store while other publishers append
+			if err := ebu.SubscribeWithReplay(context.Background(), bus, "c09-sub", func(ev) {}); err != nil {
+				t.Fatalf("SubscribeWithReplay: %v", err)
+			}
 		}
 		var found, notFound atomic.Int32
 		ebu.Subscribe(bus, func(e ev) {
@@ -606,7 +618,7 @@ func TestC09Concurrent(t *testing.T) {
 		close(start)
 		wg.Wait()
 		bus.Wait()
-		witness := map[string]any{"store": kind, "publishers": P, "events_each": E, "gomaxprocs": procs[i%len(procs)]}
+		witness := map[string]any{"store": kind, "publishers": P, "events_each": E, "gomaxprocs": procs[i%len(procs)], "resumable_subscription_saving_offsets_in_the_store": withSub}
 		fam := strings.SplitN(kind, "-", 2)[0]
 		// read the whole log (durable-streams: follow next offsets; no limit is used, so the recorded
 		// truncation finding is not involved)
@@ -686,7 +698,7 @@ func TestC09Concurrent(t *testing.T) {
 			st2.Close()
 			st2.Remove()
 		}
-		run.Case(fmt.Sprintf("%s|P%d|E%d|p%d", kind, P, E, procs[i%len(procs)]), P >= 2)
+		run.Case(fmt.Sprintf("%s|P%d|E%d|p%d|sub%v", kind, P, E, procs[i%len(procs)], withSub), P >= 2)
 		run.Count("records_checked", int64(len(all)))
 		run.Count("handler_reads_that_found_own_record", int64(found.Load()))
 		if i == 0 {
